@@ -133,6 +133,25 @@ mod verif_c01 {
         kani::cover!(true);
     }
 
+    // padded forms: one byte -> "xx==", two bytes -> "xxx="; the unpadded spelling is not standard Base64 and is rejected
+    #[kani::proof]
+    #[kani::unwind(16)]
+    fn value_bytes_padding() {
+        script(Reply::Str(10), Reply::Natural);
+        assert!(<ValueBehavior as Behavior>::deserialize_bytes(Src(0), UV).is_ok());
+        assert!(n() == 2 && at(0) == Ev::M(STR, 0, 0) && at(1) == Ev::VByteBuf(1, 1));
+        script(Reply::Str(11), Reply::Natural);
+        assert!(<ValueBehavior as Behavior>::deserialize_byte_buf(Src(0), UV).is_ok());
+        assert!(n() == 2 && at(0) == Ev::M(STR, 0, 0) && at(1) == Ev::VByteBuf(2, 1));
+        script(Reply::Str(10), Reply::Natural);
+        assert!(<KeyBehavior as Behavior>::deserialize_bytes(Src(0), UV).is_ok());
+        assert!(n() == 2 && at(1) == Ev::VByteBuf(1, 1));
+        script(Reply::Str(12), Reply::Natural);
+        assert!(<ValueBehavior as Behavior>::deserialize_bytes(Src(0), UV).is_err());
+        assert!(n() == 1);
+        kani::cover!(true);
+    }
+
     // ---- key position ----------------------------------------------------------------------------------------------
     #[kani::proof]
     #[kani::unwind(12)]
